@@ -125,3 +125,46 @@ func VH_C14_RecordSizeArithmetic() {
 		vh.Reach("rs<n")
 	}
 }
+
+// VH_C14_ReadPatterns: the decoder is an io.Reader; callers read it with buffers of ANY size, changing from call to
+// call (io.ReadAll grows its buffer, bufio and io.Copy use their own).  Payload of 0..3 records plus a tail
+// (record sizes 2 and 3, symbolic content), both drafts; three Read calls with buffer sizes chosen per call - first
+// {1, 2} (smaller than or equal to a record: leaves a leftover), then {1, rs+32 (a whole record plus its proof),
+// 64}, then {1, rs+32} - and io.ReadAll for the rest: the concatenation of what the calls return is exactly the
+// payload, no call returns more than its buffer, and the stream ends with io.EOF and no other error.  Seed C14-4
+// (a direct-into-caller's-buffer path taken before the leftover of a partially delivered record is drained) was
+// missed: every harness read through io.ReadAll or a one-byte reader.
+func VH_C14_ReadPatterns() {
+	draft03 := vh.Choose(2) == 1
+	enc := c14Enc(draft03)
+	rs := 2 + vh.Choose(2)
+	n := vh.Choose(3*rs + 2)
+	payload := vh.Bytes("p", n)
+	var w vh.Sink
+	hdr, err := enc.Encode(&w, payload, rs)
+	vh.Assume(err == nil)
+	dec, err := enc.NewDecoder(bytes.NewReader(w.B), hdr, 16384)
+	vh.Assume(err == nil)
+	plan := [][]int{{1, 2}, {1, rs + 32, 64}, {1, rs + 32}}
+	var out []byte
+	var rerr error
+	for call := 0; call < len(plan) && rerr == nil; call++ {
+		sz := plan[call][vh.Choose(len(plan[call]))]
+		buf := make([]byte, sz)
+		var k int
+		k, rerr = dec.Read(buf)
+		vh.Assert(k >= 0 && k <= sz, "Read returns at most the buffer size")
+		if k < 0 || k > sz {
+			return
+		}
+		out = append(out, buf[:k]...)
+	}
+	if rerr == nil {
+		rest, err2 := io.ReadAll(dec)
+		vh.Assert(err2 == nil, "an honest stream ends without error")
+		out = append(out, rest...)
+	} else {
+		vh.Assert(rerr == io.EOF, "an honest stream ends with io.EOF and no other error")
+	}
+	vh.Assert(bytes.Equal(out, payload), "the Read calls together deliver exactly the payload, whatever the buffer sizes were")
+}
